@@ -69,6 +69,21 @@ CHECKS = {
         design="§8 C04",
         technique="Lean 4 proof (filter-by-kind invariant through routing) + L2 differential over all ordered kind pairs",
         note=TB + " reply kind and multitest's Contract impl are covered under C07/C12."),
+    "C11": dict(
+        text="Machine-checked proof on the model of IntoMsg/IntoResponse: without a custom message the response is returned with every sub-message (order, id, payload, "
+             "gas limit, trigger, content), attribute, event and data intact; the conversion fails iff some message is custom, with no partial response. The set of message "
+             "kinds with a converting arm and the field-by-field forms are re-read from sylvia/src/into_response.rs on every run (obligation: every non-custom kind is covered). "
+             "Tie: real IntoResponse on thousands of generated Response<Empty> (12 message shapes) vs model and vs field-wise equality.",
+        design="§8 C11",
+        technique="Lean 4 proof (list induction) over a kind table regenerated from source + L3 differential",
+        note=TB + " The dispatch arms that insert into_response / into_empty for `: custom(..)` interfaces are templates recognised by the translator; their behaviour in compiled custom contracts is not yet in the corpus (partial for that clause)."),
+    "C20": dict(
+        text="Machine-checked proof on the model of Remote: encoding is the single-member object {addr}, independent of the type index and of owned/borrowed; decode(encode r) "
+             "gives the same address under any type index; schema name constant. Tie: real to_json_string/from_json/schema_for! for six type parameters (concrete, generic, "
+             "dyn Interface with associated types, unsized) x owned/borrowed x address strings with escapes and non-ASCII, vs the model's literal JSON.",
+        design="§8 C20",
+        technique="Lean 4 proof (definitional + derive-decoder model) + L3 differential over type parameters",
+        note=TB + " JSON string escaping of the model printer is validated by the stream, not proved."),
 }
 
 ALL = ["C%02d" % i for i in range(1, 21)]
@@ -85,13 +100,13 @@ def main():
             "enable": "SYLVIA_VERIF_HARNESS=/verif/harness/hook/hook_main.rs cargo test --offline -p sylvia-derive --features verif-hook --lib -- verif_hook::verif_entry --exact",
             "baseline_off_cmd": "cd /repo && cargo test --workspace --no-fail-fast --offline",
             "source_commits": ["f0dc71d"],
-            "fix_commits": ["a51e7a3", "fead2e3", "dbb2669"],
+            "fix_commits": ["a51e7a3", "fead2e3", "dbb2669", "e4181bc"],
             "add_only": True,
         },
         "engines": [
             {"name": "lean", "path": "lean/", "serves_properties": sorted(CHECKS), "kind_free_text": "Lean 4 model + theorems + svmodel line-protocol driver"},
             {"name": "hook", "path": "harness/hook/", "serves_properties": ["C06", "C13", "C01", "C02", "C03", "C04", "C05"], "kind_free_text": "in-process macro expansion + source translator, compiled into sylvia-derive tests via the verif-hook feature (L1)"},
-            {"name": "rt", "path": "harness/rt/", "serves_properties": ["C05", "C01"], "kind_free_text": "Rust harness calling the real runtime library (L3)"},
+            {"name": "rt", "path": "harness/rt/", "serves_properties": ["C05", "C01", "C11", "C20"], "kind_free_text": "Rust harness calling the real runtime library (L3)"},
             {"name": "corpus", "path": "harness/corpus/ + vlib/corpus.py", "serves_properties": ["C01", "C02", "C03", "C04", "C05"], "kind_free_text": "generated contracts compiled against /repo/sylvia with echo handlers (L2)"},
         ],
         "checks": [],
